@@ -4,6 +4,7 @@ import (
 	"fmt"
 	"grog/internal/config"
 	"grog/internal/dag"
+	"grog/internal/label"
 	"grog/internal/model"
 	"strings"
 )
@@ -25,6 +26,9 @@ func (s *Selector) SelectTargetsForBuild(
 ) (int, int, error) {
 
 	platformSkipped := 0
+	// Ancestors that were already traversed (shared by all matched nodes) so that
+	// diamond-shaped graphs are not walked once per dependency path
+	visitedAncestors := make(map[label.TargetLabel]struct{})
 	for _, node := range graph.GetNodes() {
 		// Match pattern and test flag
 		if s.nodeMatchesFilters(node) {
@@ -34,7 +38,7 @@ func (s *Selector) SelectTargetsForBuild(
 			}
 
 			node.Select()
-			if err := s.selectAllAncestorsForBuild(graph, []string{node.GetLabel().String()}, node); err != nil {
+			if err := s.selectAllAncestorsForBuild(graph, []string{node.GetLabel().String()}, node, visitedAncestors); err != nil {
 				return 0, 0, err
 			}
 		}
@@ -57,6 +61,7 @@ func (s *Selector) selectAllAncestorsForBuild(
 	graph *dag.DirectedTargetGraph,
 	depChain []string,
 	node model.BuildNode,
+	visitedAncestors map[label.TargetLabel]struct{},
 ) error {
 	for _, ancestor := range graph.GetDependencies(node) {
 		nextChain := append(append([]string{}, depChain...), ancestor.GetLabel().String())
@@ -66,8 +71,13 @@ func (s *Selector) selectAllAncestorsForBuild(
 				depChain[0], depChainStr, config.Global.GetPlatform())
 		}
 
+		if _, alreadyVisited := visitedAncestors[ancestor.GetLabel()]; alreadyVisited {
+			continue
+		}
+		visitedAncestors[ancestor.GetLabel()] = struct{}{}
+
 		ancestor.Select()
-		if err := s.selectAllAncestorsForBuild(graph, nextChain, ancestor); err != nil {
+		if err := s.selectAllAncestorsForBuild(graph, nextChain, ancestor, visitedAncestors); err != nil {
 			return err
 		}
 	}
